@@ -163,6 +163,17 @@ func engCodecTotal(seed int64, tier string, _ []string, out *sx.Out) {
 	// (d) structured property blocks with one broken field (eng_codec_propblocks.go)
 	propBlockCases(q, thorough)
 
+	// (e) every special code point / ill-formed UTF-8 sequence in every string-typed field: the real
+	// encoder writes the packet (it does not validate strings), the decoder must accept or reject it
+	// exactly as the model does
+	for _, v := range []byte{4, 5} {
+		for _, pk := range specialStringPackets(v, true) {
+			if enc, oc := encodeReal(pk); oc == outOK {
+				q.stream(pk.ProtocolVersion, enc)
+			}
+		}
+	}
+
 	// (c) random bodies and mutated encoder outputs ---------------------------------------------
 	nrand := 15000
 	if thorough {
